@@ -307,6 +307,18 @@ func SkipThrough() string { return os.Getenv("VERIF_SKIP_THROUGH") }
 
 // Finish writes the shard result.
 func (r *Run) Finish() {
+	// Finish is the deferred call of every TestProp. A panic that escapes the monitor (a bubble deadlock reported by synctest,
+	// a gokrb5 panic outside a Guard, a bug of the monitor itself) must not be recorded as a completed run: whatever was
+	// observed up to it is kept, and the run is inconclusive.
+	if p := recover(); p != nil {
+		stack := debug.Stack()
+		fmt.Fprintf(os.Stderr, "vh: panic escaped the monitor: %v\n%s\n", p, stack)
+		msg := fmt.Sprint(p)
+		if len(msg) > 300 {
+			msg = msg[:300] + "..."
+		}
+		r.Inconclusive("the monitor did not run to its end: panic " + msg + " @ " + PanicSite(stack))
+	}
 	r.mu.Lock()
 	defer r.mu.Unlock()
 	r.res.WallS = time.Since(r.start).Seconds()
